@@ -172,6 +172,9 @@ def collect(out, job, run, m, ident, nontriv_fn=None, extra=None):
     cnt("polls", len([op for op in run.script if op[0] == "poll"]))
     cnt("requests", len([op for op in run.script if op[0] == "req"]))
     cnt("crashes", run.counters.get("crashes", 0))
+    cnt("read_only_queries", run.counters.get("query_noise", 0))
+    if run.counters.get("query_noise_exc"):
+        cnt("read_only_queries_raised", run.counters["query_noise_exc"])
     cnt("final_" + run.status())
     if run.notes.get("max_steps"):
         cnt("runs_cut_at_step_limit")
